@@ -389,6 +389,7 @@ class State:
         self.trace = []         # (fn, bb) for reachability / debugging
         self.tags = {}
         self.groups = []        # droppable definitions: (tuple of fresh vars, tuple of constraints)
+        self.divlog = []        # (dividend, divisor, q, r) of every symbolic truncated division, in execution order
 
     def copy(self):
         s = State()
@@ -405,6 +406,7 @@ class State:
         s.trace = list(self.trace)
         s.tags = dict(self.tags)
         s.groups = list(self.groups)
+        s.divlog = list(self.divlog)
         return s
 
     def frame(self, uid):
@@ -593,7 +595,9 @@ class Executor:
         if isinstance(cond, bool):
             return cond
         s = z3.Solver()
-        s.set("timeout", self.feas_timeout_ms)
+        nunk = st.tags.get("feas_unknowns", 0)
+        # satisfiable non-linear queries tend to stay hard along a path: shrink the cap after repeated unknowns
+        s.set("timeout", self.feas_timeout_ms if nunk < 2 else max(40, self.feas_timeout_ms // 6))
         for c in st.constraints():
             s.add(c)
         if cond is not None:
@@ -604,6 +608,7 @@ class Executor:
         self.stats["feas_time"] = self.stats.get("feas_time", 0.0) + time.time() - t0
         if r == z3.unknown:
             self.count("feas_unknown")
+            st.tags["feas_unknowns"] = nunk + 1
         return r != z3.unsat
 
     def proves(self, st, cond, timeout_ms=500):
@@ -705,9 +710,14 @@ class Executor:
                 if "<impl at" not in c.name:
                     out.append(c)
             return out
-        # prefer exact (normalised) name match, then same enclosing function
+        # prefer exact name match, then a path-suffix match, then same enclosing function
         for c in cands:
-            if norm_type(c.name) == nt or c.name == text:
+            if c.name == text:
+                out.append(c)
+        if out:
+            return out
+        for c in cands:
+            if text.endswith("::" + c.name) or c.name.endswith("::" + text):
                 out.append(c)
         if out:
             return out
@@ -1016,6 +1026,7 @@ class Executor:
             cs.append(z3.And(r < absb, r > -absb))
         st.define((q, r), cs)
         st.divcache[key] = (q, r, a, b)
+        st.divlog.append((a, b, q, r))
         return q, r
 
     def binop(self, st, fr, op, a, b):
@@ -1277,6 +1288,15 @@ class Executor:
         segs = [s for s in p2.split("::") if s]
         if len(segs) >= 2 and segs[-2] in self.prog.enums and segs[-1] in self.prog.enums[segs[-2]]:
             return EnumV(segs[-2], self.prog.enums[segs[-2]].index(segs[-1]), vals)
+        if len(segs) == 1:
+            owners = [e for e, vs in self.prog.enums.items() if segs[0] in vs]
+            if len(owners) > 1:
+                hint = norm_type(apply_subst(fr.fn.locals.get(getattr(self, "_dest_local", ""), ""), fr.subst))
+                owners = [e for e in owners if re.search(r"\b%s\b" % e, hint)] or owners
+            if len(owners) == 1:
+                return EnumV(owners[0], self.prog.enums[owners[0]].index(segs[0]), vals)
+            if len(owners) > 1:
+                raise Unsupported("ambiguous bare variant %s" % segs[0])
         if segs[-1] in self.prog.enums and form == "unit":
             raise Unsupported("enum without variant: %s" % path)
         return Agg("struct:" + segs[-1], vals)
@@ -1485,6 +1505,7 @@ class Executor:
             stmts, term = fn.blocks[fr.bb]
             if fr.idx == 0 and not fr.entered:
                 fr.entered = True
+                self.stats["blocks"] = self.stats.get("blocks", 0) + 1
                 mp = self.merge_points(fn) if self.merge_fns else ()
                 if fr.bb in mp and not st.tags.get(("merged", fr.uid, fr.bb)):
                     st.tags[("merged", fr.uid, fr.bb)] = True
@@ -1560,6 +1581,7 @@ class Executor:
         if k == "nop":
             return
         if k == "assign":
+            self._dest_local = s[1].local
             val = self.eval_rvalue(st, fr, s[2])
             if s[2][0] == "discr" and not s[1].proj:
                 dty = norm_type(fr.fn.locals.get(s[1].local, "isize"))
@@ -1818,6 +1840,17 @@ class Executor:
             for f, s in good:
                 hdr = self.prog.impl_header(f[0] if isinstance(f, tuple) else f)
                 if tname in hdr and re.search(r"for\s+&?%s\b" % re.escape(selfty), hdr):
+                    out.append((f, s))
+            if out:
+                return out
+        # module path in front of `<impl ..>`: `binops::cmp::<impl Decimal>::m` vs `cmp::<impl at src/binops/cmp.rs..>::m`
+        mm = re.match(r"^((?:\w+::)+)<impl ", callee_s)
+        if mm:
+            cpre = mm.group(1)
+            for f, s in good:
+                md = re.match(r"^((?:\w+::)*)<impl ", f.name)
+                dpre = md.group(1) if md else None
+                if dpre and (cpre.endswith(dpre) or dpre.endswith(cpre)):
                     out.append((f, s))
             if out:
                 return out
